@@ -85,7 +85,7 @@ MACROS = {
         "sr": "(define-syntax def-const-macro (syntax-rules () ((_ name val) (define-syntax name (syntax-rules () ((_) val))))))\n(def-const-macro five 5)",
     },
 }
-TEMPLATE_NAMES = ["tmp", "loop", "i", "limit", "helper", "x", "by"]
+TEMPLATE_NAMES = ["tmp", "loop", "i", "limit", "helper", "x", "by", "len", "ls", "res", "expr", "rename", "compare"]
 KEYWORDS = ["if", "let", "set!", "when", "cond", "else", "do", "lambda", "begin", "and", "or", "case", "unless", "quote", "define", "=>", "let*", "letrec"]
 PROCS = ["list", "+", ">=", "cons", "car", "not", "vector", "apply", "map", "*", "-", "<", "="]
 
@@ -128,6 +128,13 @@ SCENARIOS = [
      {"let", "let-syntax", "syntax-rules", "if", "list", "_", "a", "b", "c"}, lambda k: [k[0], 2, 3]),
     ("lambda-or", ["my-or"], "((lambda ({b0} {b1}) (my-or {b0} {b1})) #f {k1})", 2, {"lambda"}, lambda k: k[1]),
     ("namedlet", ["my-or"], "(let {b0} (({b1} {k0})) (if (< {b1} 3) ({b0} (+ {b1} 1)) (my-or #f {b1})))", 2, {"let", "if", "<", "+"}, lambda k: max(k[0], 3)),
+    # pattern variables of a locally defined macro may be spelled like the temporaries of the syntax-rules compiler itself
+    ("patvar-tail", [], "(let-syntax ((m (syntax-rules () ((_ {b0} mid ... {b1}) (list {b0} {b1} 'mids mid ...))))) (m {k0} 1 2 {k1}))", 2,
+     {"list", "quote", "mid", "m", "let-syntax", "syntax-rules", "mids"}, lambda k: [k[0], k[1], "mids", 1, 2]),
+    ("patvar-nested", [], "(let-syntax ((m (syntax-rules () ((_ ({b0} {b1} ...) ...) (list (list {b0} {b1} ...) ...))))) (m ({k0} 2 3) (4 {k1})))", 2,
+     {"list", "m", "let-syntax", "syntax-rules"}, lambda k: [[k[0], 2, 3], [4, k[1]]]),
+    ("patvar-vector", [], "(let-syntax ((m (syntax-rules () ((_ #({b0} {b1} ...) tail) (list {b0} (list {b1} ...) tail))))) (m #({k0} 2 3) {k1}))", 2,
+     {"list", "m", "let-syntax", "syntax-rules", "tail"}, lambda k: [k[0], [2, 3], k[1]]),
     # a locally bound variable spelled like a pattern literal must not match the literal
     ("literal-bound", ["arith"], "(let (({b0} +)) (arith 2 {b0} {k0}))", 1, {"let", "+"}, lambda k: 2 + k[0]),
     ("literal-free", ["arith"], "(let (({b0} {k0})) (arith {b0} by 3))", 1, {"let", "by"}, lambda k: k[0] * 3),
